@@ -308,6 +308,15 @@ impl Subscription {
                                             );
                                             Response::new(Value::Object(map))
                                         }
+                                        // the error nulls the nearest nullable position,
+                                        // which is the root field itself when its type allows
+                                        Err(err) if field_type.is_nullable() => {
+                                            let mut map = IndexMap::new();
+                                            map.insert(field_name.clone(), Value::Null);
+                                            let mut resp = Response::new(Value::Object(map));
+                                            resp.errors.push(err);
+                                            resp
+                                        }
                                         Err(err) => {
                                             failed.store(true, Ordering::Relaxed);
                                             Response::from_errors(vec![err])
